@@ -33,6 +33,8 @@ RULE = ('cases: one per cell (decade of the error -15..14) x (position: 10^k(1-u
         'in both orders incl. ties, float(), is_zero_within_error (sigma 0.5..3 incl. exact equality |value| = sigma*dvalue), Corr.plottable with undefined slices. '
         'second hardening: prior positions 9..65536, fits with 11 / 12 parameters all carrying string priors (list and dict filled in descending order), correlators with 11..260 timeslices, one shared fit-function object / fresh lambdas / fresh defs, '
         'the container of priors compared after the fit and used for a second fit, observables / operands / correlators compared with their digest before printing, comparing, testing, viewing, a spectator ensemble with weight exactly zero; counters judged:<mechanism> give the number of evaluations of every judgement. '
+        'third hardening: text form of fit results (parameter lines, goodness-of-fit numbers, repr, len, re-analysis) and of correlators (one line per timeslice, matrix correlators: header only, plottable refused), '
+        'pseudo_Obs with zero / negative error, significance 0 / negative / float refused, numbers / tuples / bytes / strings with error zero refused as priors and observables taken as they are, CObs parts with equal values on different data. '
         'non-trivial: a string with a non-zero error was judged (or the row produced a decision); distinct = digest of (value, error, significance, flag) / of the row inputs')
 ASSUMPTIONS = ['half-unit rule with 4 ulp slack (the float is scaled by a power of ten before rounding); errors at least 10^significance print as integers (documented integer floor)',
                'the prior parser multiplies the error digits by a power of ten in floating point: 2 ulp tolerated (3 ulp after the square / square-root of cov_Obs); the value must be the correctly rounded decimal',
@@ -121,8 +123,8 @@ def teardown(ctx):
 
 def plan(tier):
     m = 1 if tier == 'quick' else 144
-    return [('fmt', len(CELLS) * max(m, 2)), ('fmt_mc', 320 * m), ('cobs', 320 * m), ('plain', 360 * m), ('compare', 385 * m), ('zero', 480 * m),
-            ('plottable', 120 * m), ('fit_priors', 96 * m), ('many', 150 * m)]
+    return [('fmt', len(CELLS) * max(m, 2)), ('fmt_mc', 320 * m), ('cobs', 320 * m), ('plain', 480 * m), ('compare', 385 * m), ('zero', 480 * m),
+            ('plottable', 120 * m), ('fit_priors', 96 * m), ('many', 150 * m), ('corr_matrix', 60 * m), ('prior_refusals', 64 * m)]
 
 
 # ------------------------------------------------------------------------------------------
@@ -390,13 +392,16 @@ def case_cobs(ctx, idx, rng):
         else:
             n = int(rng.integers(8, 30))
             parts.append(PE.Obs([rng.normal(size=n) * e * math.sqrt(n) + v], ['E1']))
-    special = {7: 'minus-zero-imag', 9: 'same-observable-twice', 11: 'minus-zero-real'}.get(idx % 16, 'generic')
+    special = {7: 'minus-zero-imag', 9: 'same-observable-twice', 11: 'minus-zero-real', 13: 'equal-values-different-data'}.get(idx % 16, 'generic')
     if special == 'minus-zero-imag':
         parts[1] = -1 * PE.cov_Obs(0.0, float(parts[1].value if parts[1].value else 1.0) ** 2 + 1e-300, 'cvC1')      # value -0.0, error > 0
     elif special == 'minus-zero-real':
         parts[0] = -1 * PE.cov_Obs(0.0, float(parts[0].value if parts[0].value else 1.0) ** 2 + 1e-300, 'cvC0')
     elif special == 'same-observable-twice':
         parts[1] = parts[0]
+    elif special == 'equal-values-different-data':
+        # the two parts agree in their central value but are different observables with different errors
+        parts[1] = PE.cov_Obs(float(parts[0].value), (3.7 * float(abs(parts[0].value)) + 1e-3) ** 2, 'cvC1')
     c = PE.CObs(parts[0], parts[1])
     c.gamma_method()
     re, im = c.real, c.imag
@@ -440,13 +445,50 @@ def case_cobs(ctx, idx, rng):
 
 def case_plain(ctx, idx, rng):
     """an observable without error prints as its plain value"""
-    how = ['not-analysed', 'constant-data', 'nan-error', 'inf-error', 'zero-error-direct', 'cobs-not-analysed'][idx % 6]
+    how = ['not-analysed', 'constant-data', 'nan-error', 'inf-error', 'zero-error-direct', 'cobs-not-analysed', 'pseudo-obs-zero-error',
+           'significance-not-positive-refused'][idx % 8]
     v = float(rng.choice([-1, 1])) * 10.0 ** float(rng.uniform(-15, 15))
     if idx % 12 == 0:
         v = float(int(rng.integers(-1000, 1000)))
     ctx.cell('plain', how)
     direct = getattr(PE.obs, '_format_uncertainty', None)
-    if how == 'not-analysed':
+    if how == 'pseudo-obs-zero-error':
+        # an observable requested with error zero (or a non-positive one): constant samples, prints as its plain value, and the
+        # value is the requested one
+        k = int(rng.integers(5, 40))
+        o = PE.pseudo_Obs(v, [0.0, 0.0, -1.0][idx % 3], 'E1', samples=k)
+        o.gamma_method()
+        ctx.ev(2)
+        jd(ctx, 'pseudo_Obs:zero-error-observable-has-another-value-or-an-error')
+        # (the mean of k equal numbers is not always that number: an error of the size of the rounding of the value is not an error)
+        # bound: the sum of k terms carries at most (k-1) roundings
+        if not F.within_ulps(float(o.value), v, k) or not float(o.dvalue) <= 2 * k * math.ulp(v) or o.N != k:
+            ctx.violation('pseudo_Obs:zero-error-observable-has-another-value-or-an-error', {'requested': repr(v), 'value': repr(o.value), 'dvalue': repr(o.dvalue), 'N': o.N})
+        if float(o.dvalue) != 0.0:
+            ctx.count('pseudo_obs_zero_error_with_rounding_noise')
+            all_views(ctx, o, 2, '+', 0)          # the stored error is not zero: the text is a value(error) string like any other
+            ctx.nontrivial.add(digest('plain', how, repr(v)))
+            return
+        views = [(str(o), ''), (format(o, '3'), ''), (format(o, '+2'), '+')]
+        val = float(o.value)
+    elif how == 'significance-not-positive-refused':
+        # zero or negative significant digits cannot be shown: the request must be refused, not answered with some text
+        o = controlled_obs(v, abs(v) * 10.0 ** float(rng.uniform(-3, 1)))
+        calls = [('format(obs, "0")', lambda: format(o, '0')), ('format(obs, "+0")', lambda: format(o, '+0')), ('"{:0}".format(obs)', lambda: '{:0}'.format(o))]
+        if direct is not None:
+            calls += [('_format_uncertainty(significance=0)', lambda: direct(v, abs(v) + 1.0, 0)), ('_format_uncertainty(significance=-1)', lambda: direct(v, abs(v) + 1.0, -1)),
+                      ('_format_uncertainty(significance=2.0)', lambda: direct(v, abs(v) + 1.0, 2.0))]
+        for what, call in calls:
+            ctx.ev()
+            jd(ctx, 'format:significance-not-a-positive-integer-accepted')
+            try:
+                got = call()
+            except (ValueError, TypeError):
+                continue
+            ctx.violation('format:significance-not-a-positive-integer-accepted', {'call': what, 'returned': repr(got)})
+        ctx.nontrivial.add(digest('plain', how, repr(v)))
+        return
+    elif how == 'not-analysed':
         n = int(rng.integers(5, 20))
         o = PE.Obs([rng.normal(size=n) + v], ['E1'])
         views = [(str(o), ''), (format(o, '3'), ''), (format(o, '+3'), '+'), (format(o, ' 2'), ' ')]
@@ -638,6 +680,70 @@ def case_zero(ctx, idx, rng):
     ctx.sample({'value': val, 'dvalue': dv, 'sigma': sigma, 'result': bool(got), 'how': how})
 
 
+def judge_corr_text(ctx, corr, text):
+    """text form of a one-dimensional correlator: one line per timeslice, 't' alone for an undefined slice, else 't<TAB>+value(error)' with
+    the sign always shown; every value(error) is judged like any other"""
+    lines = text.split('\n')
+    ctx.ev()
+    jd(ctx, 'corr-text:layout')
+    try:
+        start = lines.index('------------------') + 1
+    except ValueError:
+        ctx.violation('corr-text:layout', {'text_head': text[:200]})
+        return
+    body = [l for l in lines[start:] if l != '']
+    if len(body) != corr.T or not lines[0].startswith('Corr T=%d N=1' % corr.T):
+        ctx.violation('corr-text:layout', {'lines': len(body), 'T': corr.T, 'first': lines[0]})
+        return
+    for t, (line, c) in enumerate(zip(body, corr.content)):
+        parts = line.split('\t')
+        ctx.ev()
+        if parts[0] != str(t) or (c is None) != (len(parts) == 1):
+            ctx.violation('corr-text:timeslice-or-undefined-slice-wrong', {'line': line, 't': t, 'defined': c is not None})
+            continue
+        if c is None:
+            continue
+        o = c[0]
+        if not (float(o.dvalue) > 0):
+            continue
+        judge_string(ctx, parts[1], float(o.value), float(o.dvalue), 2, 'corr-text', {'line': line})
+        ctx.ev()
+        if parts[1][0] not in '+-':
+            ctx.violation('corr-text:sign-not-shown', {'line': line})
+
+
+def case_corr_matrix(ctx, idx, rng):
+    """a matrix correlator has no plottable view (must be refused) and its text form is the header only"""
+    T = int(rng.integers(2, 7))
+    N = 2 + idx % 2
+    content = []
+    for t in range(T):
+        if idx % 3 == 0 and t == T // 2 and T > 2:
+            content.append(None)
+            continue
+        content.append(np.array([[PE.cov_Obs(float(rng.normal()), 0.01, 'cvK') for j in range(N)] for i in range(N)]))
+    corr = PE.Corr(content)
+    tag = ['', None, 'a description'][idx % 3]
+    if tag is not None:
+        corr.tag = tag
+    corr.gamma_method()
+    ctx.cell('corr-matrix', 'N=%d' % N, 'tag=%r' % (tag,))
+    ctx.ev()
+    jd(ctx, 'plottable:matrix-correlator-accepted')
+    try:
+        got = corr.plottable()
+        ctx.violation('plottable:matrix-correlator-accepted', {'N': N, 'returned': repr(got)[:200]})
+    except (ValueError, TypeError):
+        pass
+    text = repr(corr)
+    exp = 'Corr T=%d N=%d\n' % (T, N) + ('Description: ' + tag + '\n' if tag is not None else '')
+    ctx.ev()
+    jd(ctx, 'corr-text:matrix-correlator-header')
+    if text != exp or str(corr) != exp:
+        ctx.violation('corr-text:matrix-correlator-header', {'got': text, 'expected': exp})
+    ctx.nontrivial.add(digest('corr-matrix', T, N, tag))
+
+
 def case_plottable(ctx, idx, rng):
     T = int(rng.integers(3, 14)) if idx % 8 else int(rng.integers(1, 3))          # also one- and two-slice correlators
     pattern = ['none', 'padding', 'interior', 'many'][idx % 4]
@@ -680,6 +786,7 @@ def case_plottable(ctx, idx, rng):
         ctx.violation('plottable:correlator-modified-by-the-view', {'T': corr.T})
     ctx.count('plottable_views')
     ctx.cell('plottable', pattern)
+    judge_corr_text(ctx, corr, str(corr) if idx % 2 else repr(corr))
     ex, ey, edy = [], [], []
     for t, c in enumerate(corr.content):
         if c is not None:
@@ -717,6 +824,97 @@ def case_plottable(ctx, idx, rng):
     if any(v > 0 for v in edy):
         ctx.nontrivial.add(digest('plottable', ex, ey, edy))
     ctx.sample({'T': corr.T, 'pattern': pattern, 'x': list(x), 'y': [float(v) for v in y][:4], 'dy': [float(v) for v in dy][:4]})
+
+
+def judge_fit_text(ctx, out, idx):
+    """str(fit result): the lines after 'Fit parameters:' are 'i<TAB>[ ]value(error)' of the parameters, the goodness-of-fit numbers
+    are the stored ones rounded to the printed decimals; repr lists every attribute"""
+    ctx.ev()
+    jd(ctx, 'fit-text:layout')
+    npar = len(out.fit_parameters)
+    if len(out) != npar:
+        ctx.violation('fit-text:len-differs-from-number-of-parameters', {'len': len(out), 'parameters': npar})
+    if idx % 2:
+        out.gamma_method()          # analysing the result again (same parameters) must not change what is printed
+    text = str(out)
+    lines = text.split('\n')
+    if 'Fit parameters:' not in lines:
+        ctx.violation('fit-text:layout', {'text': text[:300]})
+        return
+    body = [l for l in lines[lines.index('Fit parameters:') + 1:] if l != '']
+    if len(body) != npar:
+        ctx.violation('fit-text:layout', {'lines': len(body), 'parameters': npar})
+        return
+    for i, (line, par) in enumerate(zip(body, out.fit_parameters)):
+        parts = line.split('\t')
+        ctx.ev()
+        if len(parts) != 2 or parts[0] != str(i):
+            ctx.violation('fit-text:layout', {'line': line})
+            continue
+        if float(par.dvalue) == 0.0:
+            # parameters of a fit that has not been analysed carry no error yet: plain values
+            ctx.ev()
+            jd(ctx, 'fit-text:parameter-without-error-not-printed-as-its-value')
+            if not F.plain_value_ok(parts[1].strip(), float(par.value)):
+                ctx.violation('fit-text:parameter-without-error-not-printed-as-its-value', {'line': line, 'value': repr(par.value)})
+        else:
+            judge_string(ctx, parts[1].strip(), float(par.value), float(par.dvalue), 2, 'fit-text', {'line': line})
+    for label, attr, dec in (('\u03C7\u00b2/d.o.f. = ', 'chisquare_by_dof', 6), ('p-value   = ', 'p_value', 4)):
+        if hasattr(out, attr):
+            hit = [l for l in lines if l.startswith(label)]
+            ctx.ev()
+            jd(ctx, 'fit-text:goodness-of-fit-number')
+            ok = len(hit) == 1
+            if ok:
+                try:
+                    ok = abs(float(hit[0][len(label):]) - float(getattr(out, attr))) <= 0.5000001 * 10.0 ** -dec
+                except ValueError:
+                    ok = False
+            if not ok:
+                ctx.violation('fit-text:goodness-of-fit-number', {'attribute': attr, 'stored': float(getattr(out, attr)), 'lines': hit})
+    r = repr(out)
+    ctx.ev()
+    jd(ctx, 'fit-text:repr-lists-the-parameters')
+    if 'fit_parameters' not in r or any(repr(p) not in r for p in out.fit_parameters):
+        ctx.violation('fit-text:repr-lists-the-parameters', {'repr': r[:300]})
+    ctx.count('fit_results_printed')
+
+
+def case_prior_refusals(ctx, idx, rng):
+    """what is not a value(error) string with an error (or an observable) cannot be a prior: a number, a tuple, a string with error zero"""
+    pe = PE
+    xs = np.arange(1, 6, dtype=float)
+    ys = [pe.Obs([2.0 + 0.5 * x + rng.normal(size=30) * 0.1], ['E1']) for x in xs]
+    [y.gamma_method() for y in ys]
+    good = format(controlled_obs(0.5, 0.2), '2')
+    bad = [1.5, 3, (1.5, 0.2), None, b'1.5(2)', '1.5(0)', '0.50(0)', '2(0)'][idx % 8]
+    ctx.cell('prior-refusals', repr(bad))
+    if not isinstance(bad, str):
+        ctx.ev()
+        jd(ctx, 'prior:entry-that-is-neither-string-nor-observable-accepted')
+        try:
+            got = pe.fits._construct_prior_obs(bad, 1)
+            ctx.violation('prior:entry-that-is-neither-string-nor-observable-accepted', {'entry': repr(bad), 'returned': repr(got)})
+        except (TypeError, ValueError):
+            pass
+    for priors in ([bad, good], {0: good, 1: bad}):
+        ctx.ev()
+        jd(ctx, 'prior:unusable-prior-accepted-by-the-fit')
+        try:
+            out = pe.fits.least_squares(xs, ys, SHARED_LINEAR, priors=priors, silent=True)
+        except Exception as e:
+            if type(e) in (Exception, ValueError, TypeError):
+                continue
+            raise
+        ctx.violation('prior:unusable-prior-accepted-by-the-fit', {'prior': repr(bad), 'fit_priors': repr(out.priors)[:200]})
+    # an observable as prior is taken as it is
+    po = controlled_obs(0.5, 0.2, 'cvPO')
+    got = pe.fits._construct_prior_obs(po, 0)
+    ctx.ev()
+    jd(ctx, 'prior:observable-prior-not-taken-as-it-is')
+    if got is not po:
+        ctx.violation('prior:observable-prior-not-taken-as-it-is', {'returned': repr(got)})
+    ctx.nontrivial.add(digest('prior-refusal', repr(bad)))
 
 
 def case_fit_priors(ctx, idx, rng):
@@ -797,6 +995,7 @@ def case_fit_priors(ctx, idx, rng):
         jd(ctx, 'prior:two-string-priors-share-a-covariance-name')
         if set(items[0][1].names) & set(items[1][1].names):
             ctx.violation('prior:two-string-priors-share-a-covariance-name', {'names': [list(i[1].names) for i in items], 'strings': [str(t) for t in strings]})
+    judge_fit_text(ctx, out, idx)
     ctx.nontrivial.add(digest('fit', strings, form))
     ctx.sample({'priors': [str(s) for s in strings], 'form': form, 'fit_priors': [[float(p.value), float(p.dvalue)] for _, p in items]})
 
@@ -889,4 +1088,5 @@ def case_many(ctx, idx, rng):
 
 def run_case(ctx, kind, idx, rng):
     {'fmt': case_fmt, 'fmt_mc': case_fmt_mc, 'cobs': case_cobs, 'plain': case_plain, 'compare': case_compare, 'zero': case_zero,
-     'plottable': case_plottable, 'fit_priors': case_fit_priors, 'many': case_many}[kind](ctx, idx, rng)
+     'plottable': case_plottable, 'fit_priors': case_fit_priors, 'many': case_many, 'corr_matrix': case_corr_matrix,
+     'prior_refusals': case_prior_refusals}[kind](ctx, idx, rng)
